@@ -567,6 +567,47 @@ def spelling_case(triple):
   return res
 
 
+def cross_grid_case():
+  """Concrete layer through Configuration().read(): the separation grid follows from nr/dr/cutoff only and the density grid
+  from nrho/drho/cutoff_rho only - every option set of one grid combined with every option set of the other."""
+  from atsim.potentials.config import Configuration
+  import logging
+  res = new_result("separation and density grids are independent of each other (concrete)")
+  body = ("\n[EAM-Embed]\nA : as.polynomial 0 1\n[EAM-Density]\nA : as.polynomial 0 1\n[Pair]\nA-A : as.buck 1000.0 0.3 10.0\n"
+          "[Species]\nA.atomic_number : 1\nA.atomic_mass : 1.0\nA.lattice_constant : 1.0\nA.lattice_type : fcc\n")
+  rsets = [("", (1001, 10.0)), ("nr : 51\ncutoff : 5.0\n", (51, 5.0)), ("cutoff : 6.0\ndr : 0.5\n", (13, 6.0)), ("nr : 21\ndr : 0.25\n", (21, 5.0)), ("nr : 201\n", (201, 10.0)),
+           ("cutoff : 7.5\n", (1001, 7.5))]
+  rhosets = [("", (1001, 100.0)), ("nrho : 31\ncutoff_rho : 60.0\n", (31, 60.0)), ("cutoff_rho : 50.0\ndrho : 2.0\n", (26, 50.0)), ("nrho : 11\ndrho : 0.5\n", (11, 5.0)),
+             ("nrho : 301\n", (301, 100.0)), ("cutoff_rho : 42.0\n", (1001, 42.0))]
+  logging.disable(logging.CRITICAL)
+  try:
+    for (rt, (wn, wc)) in rsets:
+      for (ht, (wnr, wcr)) in rhosets:
+        for target in ("setfl", "DL_POLY_EAM"):
+          text = "[Tabulation]\ntarget : %s\n%s%s" % (target, rt, ht) + body
+          res["paths"] += 1
+          res["replays"] += 1
+          try:
+            tab = Configuration().read(io.StringIO(text))
+            got = (tab.nr, tab.cutoff, tab.nrho, tab.cutoff_rho)
+          except Exception as e:  # noqa
+            res["violations"].append(dict(key="cross-grid-rejected", desc="%s: %s for\n%s" % (type(e).__name__, e, text), record=dict(kind="logic", model=text)))
+            continue
+          want = (wn, wc, wnr, wcr)
+          if got[0] != want[0] or got[2] != want[2] or abs(got[1] - want[1]) > 1e-9 or abs(got[3] - want[3]) > 1e-9:
+            res["violations"].append(dict(key="cross-grid", desc="grids (nr, cutoff, nrho, cutoff_rho) = %r, the options give %r for\n%s" % (got, want, text[:text.index("[EAM")]),
+                                          record=dict(kind="logic", model=text)))
+        if len(res["violations"]) >= 3:
+          return res
+  finally:
+    logging.disable(logging.NOTSET)
+  res["vcs"] += 1
+  res["unsat"] += 0 if res["violations"] else 1
+  res["negatives"] += 1
+  res["negatives_ok"] += 1
+  return res
+
+
 def replay_defaults_after(kind):
   """fresh process: a file that gives its grid, then one that leaves it to the defaults, through the public API"""
   from atsim.potentials.config import Configuration
@@ -596,6 +637,7 @@ def cases(tier, seed=0):
       cs.append(Case("logic %s %s" % (tr, present), logic_case, triple=tr, present=present))
   for tr in ("r", "rho"):
     cs.append(Case("spellings %s" % tr, spelling_case, triple=tr))
+  cs.append(Case("cross grid", cross_grid_case))
   for kind in ("pair", "eam"):
     for d in (True, False, "after"):
       cs.append(Case("grid %s %s" % (kind, d), grid_case, kind=kind, defaults=d))
